@@ -225,14 +225,20 @@ func (st *State) oblige(kind, name, goal, note string) {
 	if strings.Contains(goal, "(forall ((") {
 		goal, asserts = st.pointwise(goal, asserts)
 	}
-	if lem, inj := bytesLemmas(goal, asserts); len(lem) > 0 {
+	lem, pairwise, inj := bytesLemmas(goal, asserts)
+	if len(lem) > 0 {
 		asserts = append(asserts[:len(asserts):len(asserts)], lem...)
+	}
+	if len(pairwise) > 0 && len(pairwise) <= 600 {
+		// few enough: no second stage needed
+		asserts = append(asserts[:len(asserts):len(asserts)], pairwise...)
+		pairwise = nil
 		if inj {
 			st.res.Assumed["collision resistance: H(x) = H(y) ==> x = y is used as an axiom for the hash function"] = true
 		}
 	}
 	vc := &VC{Name: name, Func: st.res.Key, Kind: kind, Goal: goal, Note: note,
-		Decls: st.decls.slice(), Asserts: asserts, Props: st.clauseProps, ModelVars: mv}
+		Decls: st.decls.slice(), Asserts: asserts, Props: st.clauseProps, ModelVars: mv, Pairwise: pairwise, PairwiseInj: inj}
 	if strings.Contains(goal, "(forall ") || strings.Contains(goal, "(exists ") {
 		vc.Quant = true
 	}
